@@ -27,13 +27,6 @@ def configs(tier):
                     if 1 + r - m <= 0:
                         continue
                     out.append((cash, pos, r, m))
-    if tier == "quick":
-        # every cash sign x position with a rotating subset of (rate, markup); all pairs appear
-        sel = []
-        for i, c in enumerate(out):
-            if (i + seed()) % 3 == 0 or c[2:] in ((0.02, 0.005), (-0.01, 0.03), (0.2, 0.0)):
-                sel.append(c)
-        return sel
     return out
 
 
